@@ -359,10 +359,16 @@ def run_shard(shard, tier, seed):
         for dm, pr in shard["files"]:
             check_files(dm, pr, acc, _depth(tier))
         return acc
+    depth = _depth(tier)
     for cid in shard["cids"]:
         cid = tuple((s, i) for s, i in cid)
-        check_case(cid, _depth(tier), acc)
+        io.run_minimised(cid, lambda k, a: check_case(k, depth, a), _smaller, acc)
     return acc
+
+
+def _smaller(cid):
+    for j in range(len(cid)):
+        yield cid[:j] + cid[j + 1:]
 
 
 def replay(case):
@@ -466,7 +472,8 @@ def compare_texts(dom, prb, lab, case, depth, acc, shipped=False):
             acc.outcome("shipped: reference cannot evaluate (%s)" % io.exc_name(e))
             acc.count("skipped_reference_cannot_ground")
             return
-        raise
+        viol("not-comparable:" + io.exc_name(e), "a read problem cannot be interpreted by the reference: %s" % (e,))
+        return
     for k in ("states", "transitions", "nontrivial", "traces", "plans"):
         acc.count(k, r.c[k])
     for k, v in r.outcomes.items():
